@@ -1406,6 +1406,34 @@ fn cmd_handlers(args: &[String]) {
             _ => {}
         }
     }
+    // a served file that is not a regular file: a named pipe whose stat length is 0 and which yields more than the cache
+    // limit (a log being appended to behaves the same way around the limit: the size seen by stat is not the number of
+    // bytes read).  It has to be served like any file too large to cache, and the cache has to go on working afterwards
+    // (added after the seeded change `C16-r5-inner-file-handler-...` - cacheability decided from the stat size, the oversize
+    // set panics under the write lock and poisons it - was missed: files only ever changed between requests).
+    if limit > 0 {
+        use std::io::Write;
+        let data = rng.bytes(limit + 7);
+        write_file(&log, &site, "pipe.bin", "application/octet-stream", &data);
+        let p = site.join("pipe.bin");
+        let _ = std::fs::remove_file(&p);
+        let c = std::ffi::CString::new(p.to_str().unwrap()).unwrap();
+        let made = unsafe { libc::mkfifo(c.as_ptr(), 0o644) } == 0;
+        if made {
+            let (p2, d2) = (p.clone(), data.clone());
+            // (detached: if the handler under test never opens the pipe, the writer stays blocked in open() until the process ends)
+            std::thread::spawn(move || { if let Ok(mut f) = std::fs::OpenOptions::new().write(true).open(&p2) { let _ = f.write_all(&d2); } });
+            *watch.note[0].lock().unwrap() = format!("GET /pipe.bin (a named pipe yielding limit+7 bytes) limit={} tl={}", limit, tl);
+            watch.tick(0);
+            handle(&log, &state, &site_s, 0, ("/pipe", 0, 1, "pipe.bin"));
+            let _ = std::fs::remove_file(&p);
+            for k in 0..(2 * TARGETS.len()) {
+                let target = TARGETS[k % TARGETS.len()];
+                watch.tick(0);
+                handle(&log, &state, &site_s, 0, target);
+            }
+        }
+    }
     log.dump(threads);
     let _ = std::fs::remove_dir_all(&dir);
 }
